@@ -6,14 +6,20 @@
   through `Location.infEnd α` for every carrier `α`.
 
   Code values that are NOT the textbook location (pinned, with a `…_spec_counterexample`):
-    * Poisson `median()` is the documented `⌊λ + 1/3 − 0.02/λ⌋`, which is `−1` (below `min() = 0`)
-      for λ = 1/20,
     * Poisson `max()` is `u64::MAX` (textbook `+∞`; doc comment `2^63 − 1`),
     * Weibull `mode()` for shape k < 1 evaluates `λ((k−1)/k)^{1/k}` on a negative base (NaN in
       `f64`; over ℝ `λ` at k = 1/2) instead of the textbook 0,
     * Categorical `min() = 0` / `max() = K − 1` are not tight when the first / last category has
-      zero mass, and `median()` (a binary search for `0.5·total` in the cumulative table) returns
-      a zero-mass category when an entry of the table equals `0.5·total` exactly and is repeated.
+      zero mass.
+  Categorical `median()` (a lower-bound binary search for `0.5·total` in the cumulative table) is
+  the spec median `min {k : F(k) ≥ 1/2}` for EVERY non-decreasing table, repeated entries
+  (zero-mass categories) included (`categorical_median_pin`; every table built by
+  `Categorical::new` is of that kind: `categorical_median_pin_new`).  Before `binary_index` became
+  a lower-bound search it returned the zero-mass index 1 on the table (1, 1, 1, 2); it now returns
+  0 (`categorical_median_repeated_entry`).
+  Poisson `median()` is the documented approximation `max(0, ⌊λ + 1/3 − 0.02/λ⌋)`: never below
+  `min() = 0` (`poisson_median_nonneg`), and a true median (0) for `0 < λ ≤ ln 2`
+  (`poisson_median_small_is_median`).
   Uniform `mode()` is statrs' documented convention `(a + b)/2` (every point of the support is a
   mode: `uniform_mode_isMode`).
 -/
@@ -59,7 +65,7 @@ end pareto
 section poisson
 variable (d : Poisson ℝ)
 
-/-- `median()` is the documented approximation `⌊λ + 1/3 − 0.02/λ⌋` (for every λ) -/
+/-- `median()` is the documented approximation `max(0, ⌊λ + 1/3 − 0.02/λ⌋)` (for every λ) -/
 theorem poisson_median_pin :
     Poisson.median d = ((Location.Poisson.medianApprox d.f_lambda : ℤ) : ℝ) := by
   unfold Poisson.median Location.Poisson.medianApprox
@@ -67,23 +73,50 @@ theorem poisson_median_pin :
   have : d.f_lambda + (1.0 : ℝ) / (3.0 : ℝ) - (0.02 : ℝ) / d.f_lambda
       = d.f_lambda + 1 / 3 - 1 / (50 * d.f_lambda) := by norm_num; ring
   rw [this]
+  have h0 : (0.0 : ℝ) = ((0 : ℤ) : ℝ) := by norm_num
+  rw [h0, ← Int.cast_max, max_comm]
 
-/-- Poisson(1/20): `P(X = 0) = e^{−1/20} > 1/2`, so the median is 0; `median()` is `−1`, below
-    `min() = 0` -/
-theorem poisson_median_spec_counterexample :
-    Poisson.median (⟨1 / 20⟩ : Poisson ℝ) = -1 ∧ Location.Poisson.IsMedian (1 / 20) 0
-      ∧ Poisson.median (⟨1 / 20⟩ : Poisson ℝ) < ((Poisson.min (⟨1 / 20⟩ : Poisson ℝ) : ℤ) : ℝ) := by
-  have h : Poisson.median (⟨1 / 20⟩ : Poisson ℝ) = -1 := by
+/-- `median()` never falls below the support: `median() ≥ 0 = min()` (for every λ; in
+    particular under the constructor's `0 < λ`).  Before the clamp `median()` was `−1` at
+    λ = 1/20. -/
+theorem poisson_median_nonneg :
+    0 ≤ Poisson.median d ∧ ((Poisson.min d : ℤ) : ℝ) ≤ Poisson.median d := by
+  have h : (0 : ℝ) ≤ Poisson.median d := by
     rw [poisson_median_pin]; unfold Location.Poisson.medianApprox
-    have : ⌊(1 / 20 : ℝ) + 1 / 3 - 1 / (50 * (1 / 20))⌋ = -1 := by
-      rw [Int.floor_eq_iff]; norm_num
-    rw [this]; norm_num
-  refine ⟨h, ?_, ?_⟩
+    exact_mod_cast le_max_left _ _
+  refine ⟨h, ?_⟩
+  unfold Poisson.min; simpa using h
+
+/-- small rates, `0 < λ ≤ ln 2`: `median()` is 0, and 0 IS a median of Poisson(λ)
+    (`P(X ≤ 0) = e^{−λ} ≥ 1/2`, `P(X < 0) = 0`) -/
+theorem poisson_median_small_is_median (h0 : 0 < d.f_lambda) (h1 : d.f_lambda ≤ Real.log 2) :
+    Poisson.median d = 0 ∧ Location.Poisson.IsMedian d.f_lambda 0 := by
+  constructor
+  · rw [poisson_median_pin]; unfold Location.Poisson.medianApprox
+    have hl : d.f_lambda < 0.6931471808 := lt_of_le_of_lt h1 Real.log_two_lt_d9
+    have hfl : ⌊d.f_lambda + 1 / 3 - 1 / (50 * d.f_lambda)⌋ ≤ 0 := by
+      have : ⌊d.f_lambda + 1 / 3 - 1 / (50 * d.f_lambda)⌋ < 1 := by
+        rw [Int.floor_lt]
+        have hpos : 0 < 50 * d.f_lambda := by linarith
+        have key : d.f_lambda + 1 / 3 - 1 < 1 / (50 * d.f_lambda) := by
+          rw [lt_div_iff₀ hpos]
+          nlinarith
+        push_cast; linarith
+      omega
+    rw [max_eq_left hfl]; norm_num
   · unfold Location.Poisson.IsMedian Location.Poisson.pmf
-    have := Real.add_one_le_exp (-(1 / 20 : ℝ))
-    norm_num
-    linarith
-  · rw [h]; unfold Poisson.min; norm_num
+    have he : (1 / 2 : ℝ) ≤ Real.exp (-d.f_lambda) := by
+      have : Real.exp (-Real.log 2) ≤ Real.exp (-d.f_lambda) := Real.exp_le_exp.2 (by linarith)
+      rwa [Real.exp_neg, Real.exp_log (by norm_num : (0 : ℝ) < 2), ← one_div] at this
+    simpa using he
+
+/-- the old defect point λ = 1/20: `median()` is now 0, a median -/
+example : Poisson.median (⟨1 / 20⟩ : Poisson ℝ) = 0 ∧ Location.Poisson.IsMedian (1 / 20) 0 :=
+  poisson_median_small_is_median ⟨1 / 20⟩ (by norm_num)
+    (by
+      have := Real.log_two_gt_d9
+      show (1 / 20 : ℝ) ≤ Real.log 2
+      linarith)
 
 /-- `mode()`: `⌊λ⌋` (`0 ≤ λ`: the `as u64` cast does not saturate) -/
 theorem poisson_mode_pin (h : 0 ≤ d.f_lambda) :
@@ -251,27 +284,46 @@ theorem categorical_median_search_pin (hne : d.f_cdf ≠ []) :
   simp only [this]
   norm_num
 
-/-- all weights positive (strictly increasing table, length `≤ isize::MAX`):
-    `median() = F⁻¹(1/2) = min {k : F(k) ≥ 1/2}` -/
-theorem categorical_median_pin (hne : d.f_cdf ≠ []) (hs : d.f_cdf.Pairwise (· < ·))
+/-- every NON-DECREASING table (weights `≥ 0`, zero-mass categories = repeated entries allowed,
+    length `≤ isize::MAX`): `median() = F⁻¹(1/2) = min {k : F(k) ≥ 1/2}` -/
+theorem categorical_median_pin (hne : d.f_cdf ≠ []) (hs : d.f_cdf.Pairwise (· ≤ ·))
     (hn : (d.f_cdf.length : ℤ) ≤ i64Max) :
     Categorical.median d = ((Location.Categorical.median d.f_cdf : ℕ) : ℝ) := by
   rw [categorical_median_search_pin d hne, binary_index_spec _ _ hs hn]
   unfold Location.Categorical.median
   norm_num
 
-/-- weights (1, 0, 0, 1), cumulative table (1, 1, 1, 2): `F(0) = 1/2` so `F⁻¹(1/2) = 0`; the binary
-    search hits the equal entry at index 1 first — `median()` is the zero-mass category 1 -/
-theorem categorical_median_spec_counterexample :
-    Categorical.median (⟨[1 / 2, 0, 0, 1 / 2], [1, 1, 1, 2], [1, 1, 1, 0]⟩ : Categorical ℝ) = 1
+/-- rel(hand transcription `Model.Categorical.new`): the monotonicity hypothesis is discharged for
+    every constructed object — whatever `Categorical::new` accepts (masses `≥ 0`, positive sum, at
+    most `isize::MAX` of them), `median()` is the spec median of its table -/
+theorem categorical_median_pin_new (p : List ℝ) (hnew : Model.Categorical.new p = .ok d)
+    (hn : (p.length : ℤ) ≤ i64Max) :
+    Categorical.median d = ((Location.Categorical.median d.f_cdf : ℕ) : ℝ) := by
+  obtain ⟨_, _, _, hne, hlen, hs, _⟩ := categorical_new_table p d hnew
+  exact categorical_median_pin d hne hs (by rw [hlen]; exact hn)
+
+/-- weights (1, 0, 0, 1), cumulative table (1, 1, 1, 2): `F(0) = 1/2` so `F⁻¹(1/2) = 0`; the
+    lower-bound search returns the FIRST of the equal entries — `median()` is 0, the spec median
+    (before the fix the three-way search hit the equal entry at index 1, a zero-mass category) -/
+theorem categorical_median_repeated_entry :
+    Categorical.median (⟨[1 / 2, 0, 0, 1 / 2], [1, 1, 1, 2], [1, 1, 1, 0]⟩ : Categorical ℝ) = 0
       ∧ Location.Categorical.median [1, 1, 1, 2] = 0 := by
-  constructor
-  · rw [categorical_median_search_pin _ (by simp), binary_index_eq_finish,
-      show loopFuel = 19999 + 1 from rfl, D.categorical.binary_index.loop1]
-    have h32 : Int.tdiv 3 2 = 1 := rfl
-    norm_num [Location.Categorical.total, wrapI64, listLen, sdiv, wrapU64, listGet?, unwrapO, finish, h32]
-  · unfold Location.Categorical.median Location.Categorical.total
+  have hspec : Location.Categorical.median [1, 1, 1, 2] = 0 := by
+    unfold Location.Categorical.median Location.Categorical.total
     norm_num [List.findIdx_cons]
+  refine ⟨?_, hspec⟩
+  rw [categorical_median_pin _ (by simp) (by simp) (by simp [i64Max])]
+  show ((Location.Categorical.median [1, 1, 1, 2] : ℕ) : ℝ) = 0
+  rw [hspec]; norm_num
+
+/-- that object is the one `Categorical::new(&[1.0, 0.0, 0.0, 1.0])` builds -/
+example : Model.Categorical.new ([1, 0, 0, 1] : List ℝ)
+    = .ok ⟨[1 / 2, 0, 0, 1 / 2], [1, 1, 1, 2], [1, 1, 1, 0]⟩ := by
+  unfold Model.Categorical.new
+  norm_num [Model.Multinomial.newLoop, Model.prob_mass_to_cdf, D.categorical.cdf_to_sf,
+    listGet?, usub, listLen, unwrapO]
+  show ([1, 1, 1, 2] : List ℝ)[3]⁻¹ = 1 / 2
+  norm_num
 
 /-- `min()` returns 0 (every carrier) -/
 theorem categorical_min_code_pin (d : Categorical α) : Categorical.min d = 0 := rfl
@@ -328,7 +380,7 @@ theorem categorical_max_spec_counterexample :
   · rw [categorical_max_code_pin _ (by simp)]; norm_num
   · unfold Location.Categorical.max Location.Categorical.total; norm_num [List.findIdx_cons]
 
-example : ∃ d : Categorical ℝ, d.f_cdf ≠ [] ∧ d.f_cdf.Pairwise (· < ·) ∧
+example : ∃ d : Categorical ℝ, d.f_cdf ≠ [] ∧ d.f_cdf.Pairwise (· ≤ ·) ∧
     (d.f_cdf.length : ℤ) ≤ i64Max ∧ (∃ x t, d.f_cdf = x :: t ∧ 0 < x) ∧
     (∀ x ∈ d.f_cdf.dropLast, x ≠ Location.Categorical.total d.f_cdf) :=
   ⟨⟨[1 / 4, 3 / 4], [1, 4], [3, 0]⟩, by simp, by simp, by simp [i64Max],
